@@ -24,8 +24,10 @@ def gen_config(rnd, max_jobs=14, max_depth=3, profile=None):
     """profile: dict of probabilities; missing keys take defaults"""
     p = dict(window=0.5, timeout=0.5, exc=0.35, crit=0.35, forever=0.2, never=0.15, nested=0.25,
              cdur=0.3, sdur=0.4, sd_never=0.08, edge=0.35, pure_root=0.25, job_cls=0.3, verbose=0.1,
-             yields=0.3, maxdur=5, root_timeout=0.4, sdto_none=0.15, tie=0.3)
+             yields=0.3, maxdur=5, root_timeout=0.4, sdto_none=0.15, tie=0.3, fine=0.15)
     p.update(profile or {})
+    # fine-grained schedules: completions separated by a few loop iterations inside one instant
+    fine = rnd.random() < p["fine"]
     # ties: many completions in the same instant
     dset = rnd.choice([[1], [1, 2], [2, 3], [0, 1], [1, 1, 3]]) if rnd.random() < p["tie"] else None
     jobs = []
@@ -67,6 +69,9 @@ def gen_config(rnd, max_jobs=14, max_depth=3, profile=None):
                 j["sdur"] = rnd.randint(1, 3)
             if rnd.random() < p["yields"]:
                 j["yields"] = rnd.randint(1, 3)
+            if fine and j["dur"] is not None:
+                j["dur"] = rnd.choice([0, 0, 1])
+                j["yields"] = rnd.randint(0, 6)
             if rnd.random() < p["job_cls"]:
                 j["cls"] = "job"
             jobs.append(j)
